@@ -131,3 +131,37 @@ func init() {
 		fmt.Println("obligations", len(r.Obs))
 	}
 }
+
+// debugRules: `xzverify debug rule:<name>` runs one rule function and prints its obligations.
+var debugRules = map[string]func(c *Ctx, r *Report){}
+
+func init() {
+	debugRules["ring"] = func(c *Ctx, r *Report) { ruleRingModulus(c, r, "", "") }
+}
+
+func runDebugRule(name string) int {
+	f := debugRules[name]
+	if f == nil {
+		fmt.Fprintln(os.Stderr, "no such rule")
+		return 2
+	}
+	c, err := Load(repoDir(), "")
+	if err != nil {
+		fmt.Println(err)
+		return 2
+	}
+	r := NewReport("DEBUG", "quick")
+	f(c, r)
+	bad := 0
+	for _, o := range r.Obs {
+		fmt.Printf("%-9s %-14s %-60s %s\n      %s\n", o.Status, o.Rule, o.Key, o.Pos, o.Msg)
+		if o.Status != OK {
+			bad++
+		}
+	}
+	for _, u := range c.unresolved {
+		fmt.Println("UNRESOLVED:", u)
+	}
+	fmt.Println("obligations", len(r.Obs), "not ok", bad)
+	return 0
+}
